@@ -138,9 +138,10 @@ def _qty_case(ctx, name, when, tcls, amnt_exact, unit_t, props=("C02", "C05")):
     ctx.axiom(z3.And(z3.Implies(
         z3.And(qu != 0, grid_w(amnt_exact, qu)),
         amnt_exact / qu == z3.ToReal(grid_k(amnt_exact, qu))),
-        S.rnd_int_fact(grid_k(amnt_exact, qu), S.DFLT_MODE)),
-        "A3: ground instances of lemmas field/cancel-common-factor "
-        "((k*q)/q == k) and round_rel/integers-fixed")
+        S.rnd_int_fact(grid_k(amnt_exact, qu), S.DFLT_MODE),
+        grid_kept_facts(amnt_exact, qu)),
+        "A3: ground instances of lemmas grid/multiple-not-rounded, "
+        "field/cancel-common-factor and round_rel/integers-fixed")
 
     def kept(c, o):
         return qty_result(o, lambda q, ph: z3.Implies(
